@@ -39,6 +39,7 @@ def run(ctx):
   rule_accum(ctx)
   rule_weight(ctx)
   rule_extract(ctx)
+  T.rule_all_curves(ctx, "R-C08-GROUP", lambda w_: w_.startswith("ecdsa_sig_checks:"))
   rule_lattice(ctx)
   ctx.expect("R-C08-LATTICE", 6, "GetLattice x 4 kinds of bias, precomputed constants, U2F sub-problem")
   rule_u2f_pairs(ctx)
@@ -61,7 +62,7 @@ def run(ctx):
   ctx.expect("R-C08-GUESS", 9, "comb obligations of BatchMultiplyG, batched formulas, per-curve memo")
   ctx.expect("R-C08-FEED", 4, "ECDSAValues obligations")
   ctx.expect("R-C08-OWN", 3, "BiasedBaseCheck, CheckCr50U2f, CheckIssuerKey")
-  ctx.expect("R-C08-GROUP", 4, "two checks x (partition, issuer grouping)")
+  ctx.expect("R-C08-GROUP", 6, "two checks x (partition, issuer grouping, every curve gets its turn)")
   ctx.expect("R-C08-WINDOW", 3, "sizes, aligned slices, accumulation")
   ctx.expect("R-C08-LCG-TABLE", 18, "18 table entries")
   ctx.expect("R-C08-SUBSETS", 5, "strategy flags, two users, regimes, ForCurve wiring")
